@@ -807,7 +807,6 @@ func (an *analyzer) analyze(fn *types.Func, decl *ast.FuncDecl, entry tfact, doR
 	return exitOK
 }
 
-
 func checkTokenIndex(w *World, r *Report) {
 	an := &analyzer{w: w, info: w.Info, funcs: map[*types.Func]*ast.FuncDecl{}, preserve: map[*types.Func]bool{}, mono: map[*types.Func]bool{}, leq: map[*types.Func]bool{},
 		entry: map[*types.Func]*tstate{}, handlers: map[*types.Func]bool{}, parents: w.parents, report: map[string]string{}, sites: map[string]bool{},
